@@ -70,6 +70,21 @@ func (s *TableWriter) WriteRow(rowNum int, cols ...string) {
 	}
 }
 
+// Truncate drops the rows from rowCount on: they are no longer part of what is displayed,
+// so their lines are blanked and the footers follow the rows that remain
+func (s *TableWriter) Truncate(rowCount int) {
+	if rowCount < 0 {
+		rowCount = 0
+	}
+	for i := rowCount; i < s.activeRows; i++ {
+		s.rows[i] = nil
+		s.term.WriteForLine(i, "")
+	}
+	if rowCount < s.activeRows {
+		s.activeRows = rowCount
+	}
+}
+
 func (s *TableWriter) writeRow(rowNum int, cols ...string) {
 	var sb strings.Builder
 
